@@ -28,14 +28,31 @@ theorem C17_passthrough (rn : List (List Atom × String)) (rules : List Rule) (e
 
 /-- a weight-specific code is the generic code followed by the table's weight (and `K` for kilograms) -/
 theorem C17_code_shape (rn : List (List Atom × String)) (rules : List Rule) (ev g ag c : List Char)
-    (ht : isThrowGeneric ev = true) (h : specificCode rn rules ev g ag = some c) :
-    c = ev ++ collapse (weight rn rules ev g ag) ++ (if isKg (weight rn rules ev g ag) then ['K'] else []) ∧
-    weight rn rules ev g ag ≠ [] := by
+    (ht : isThrowGeneric ev = true) (hw : weight rn rules ev g ag ≠ []) (h : specificCode rn rules ev g ag = some c) :
+    c = ev ++ collapse (weight rn rules ev g ag) ++ (if isKg (weight rn rules ev g ag) then ['K'] else []) := by
   unfold specificCode at h
   simp only [ht, Bool.not_true, Bool.false_eq_true, if_false] at h
   split at h
-  · cases h
-  · next hw => injection h with h; exact ⟨h.symm, by simpa using hw⟩
+  · next he => exact absurd (by simpa using he) hw
+  · injection h with h; exact h.symm
+
+/-- where the implement table has no weight for the label (under-13s, unknown labels) the generic code is handed back;
+    the builder answers for every event, gender and label — it never refuses -/
+theorem C17_code_generic_when_no_weight (rn : List (List Atom × String)) (rules : List Rule) (ev g ag : List Char)
+    (hw : weight rn rules ev g ag = []) : specificCode rn rules ev g ag = some ev := by
+  unfold specificCode
+  by_cases h1 : (!isThrowGeneric ev) = true
+  · simp [h1]
+  · simp [h1, hw]
+
+theorem C17_code_total (rn : List (List Atom × String)) (rules : List Rule) (ev g ag : List Char) :
+    (specificCode rn rules ev g ag).isSome = true := by
+  unfold specificCode
+  by_cases h1 : (!isThrowGeneric ev) = true
+  · simp [h1]
+  · by_cases h2 : (weight rn rules ev g ag).isEmpty = true
+    · simp [h1, h2]
+    · simp [h1, h2]
 
 /-- **Masters implements never get heavier as the age band rises**, V35 through V150, and every band has one. -/
 theorem C17_masters_mono : mastersOK = true := masters_ok
@@ -57,8 +74,12 @@ theorem C17_codes_in_language (ev g ag : String) (c : List Char) (hev : ev ∈ t
   have hc := C17_codes_valid ev hev g hg ag hag
   unfold codeOK at hc
   rw [h] at hc
-  simp only [Bool.and_eq_true] at hc
-  exact ⟨(matchesChars_iff _ _).1 hc.1.1, (matchesChars_iff _ _).1 hc.1.2⟩
+  simp only at hc
+  split at hc
+  · simp only [Bool.and_eq_true] at hc
+    exact ⟨(matchesChars_iff _ _).1 hc.1.2, (matchesChars_iff _ _).1 hc.2⟩
+  · simp only [Bool.and_eq_true] at hc
+    exact ⟨(matchesChars_iff _ _).1 hc.1.1, (matchesChars_iff _ _).1 hc.1.2⟩
 
 /-- **Every event-code key of the library's own scoring and age-grading tables is a valid event code.** -/
 theorem C17_table_keys : ∀ k ∈ Gen.tableKeys, Matches Gen.PAT_EVENT_CODE k.toList := by
